@@ -229,7 +229,8 @@ func (gw *inclusiveGateway) Element() schema.FlowNodeInterface {
 }
 
 type flowTracker struct {
-	traces     <-chan tracing.ITrace
+	tracer     tracing.ITracer
+	traces     chan tracing.ITrace
 	shutdownCh chan bool
 	flows      map[id.Id]schema.Id
 	activityCh chan struct{}
@@ -243,6 +244,7 @@ func (tracker *flowTracker) activity() <-chan struct{} {
 
 func newFlowTracker(tracer tracing.ITracer, element *schema.InclusiveGateway) *flowTracker {
 	tracker := flowTracker{
+		tracer:     tracer,
 		traces:     tracer.Subscribe(),
 		shutdownCh: make(chan bool),
 		flows:      make(map[id.Id]schema.Id),
@@ -257,6 +259,9 @@ func newFlowTracker(tracer tracing.ITracer, element *schema.InclusiveGateway) *f
 }
 
 func (tracker *flowTracker) run() {
+	// give the subscription back on shutdown: a subscription nobody reads
+	// blocks the tracer once its buffer is full
+	defer tracker.tracer.Unsubscribe(tracker.traces)
 	// As per note in the constructor, we're starting in a locked mode
 	locked := true
 	// Flag for notifying the node about activity
